@@ -22,10 +22,12 @@
   Output:
     W <n> <calls> B=<string in the buffer afterwards, hex>      | W oob | W undef
     <calls> ::= '-' | call { ',' call }          sorted as strings: the property fixes no order
-    call ::= <i.j.k> ':' <address-hex> [ '>' ( '-' | <i.j.k> { '+' <i.j.k> } | 'oob' ) ]
+    call ::= <i.j.k> ':' <address-hex> { '>' ( '-' | <i.j.k> { '+' <i.j.k> } | 'oob' ) }
   The part behind '>' (default options only) lists the leaf ports whose callbacks run when the
   address — without the prefix the buffer started with — is sent back as a message carrying
-  the first type alternative of the reported port with all-zero arguments.
+  the first type alternative of the reported port with all-zero arguments.  W and D: two such parts,
+  the dispatch without location buffer (linear search of every table) and with one (the lookup
+  strategy the library picked for each table: perfect hash or linear); R: one (with location buffer).
 -/
 import RtoscModel.Walk.Dispatch
 import Driver.Common
@@ -171,7 +173,7 @@ def callKey (c : Call) : String := showIx c.1 ++ ":" ++ toHex c.2
 
 /-- the calls as a sorted list (the statement fixes no order) without one report of every pair
     in `opt` -/
-def showCalls (tab : List PortT) (prefLen : Option Nat) (opt : List String) (cs : List Call) : String × Nat :=
+def showCalls (tab : List PortT) (prefLen : Option Nat) (both : Bool) (opt : List String) (cs : List Call) : String × Nat :=
   let keyed := cs.map fun c => (callKey c, c)
   let kept := opt.foldl (fun (l : List (String × Call)) o =>
     match l.findIdx? (fun kc => kc.1 == o) with
@@ -180,11 +182,16 @@ def showCalls (tab : List PortT) (prefLen : Option Nat) (opt : List String) (cs 
   let strs := kept.map fun (k, c) =>
     k ++ (match prefLen with
           | none => ""
-          | some n => ">" ++ showDisp tab n c)
+          | some n =>
+            -- W, D: dispatched without and with a location buffer.  The callbacks invoked do not depend
+            -- on the lookup strategy (C04: `Rtosc.Ports.loc_independent`), so the model of the
+            -- dispatch with location buffer is the same function
+            let d := showDisp tab n c
+            if both then ">" ++ d ++ ">" ++ d else ">" ++ d)
   let sorted := (strs.toArray.qsort (· < ·)).toList
   (if sorted.isEmpty then "-" else ",".intercalate sorted, sorted.length)
 
-def run (tab : List PortT) (rt : Option Obj) (buf : Bytes) (o : Opts) (opt : List String) : String :=
+def run (tab : List PortT) (rt : Option Obj) (buf : Bytes) (o : Opts) (both : Bool) (opt : List String) : String :=
   -- the prefix the buffer starts with (the root '/' for an empty buffer)
   let prefLen : Option Nat :=
     if o.expand && !o.ranges then
@@ -199,22 +206,22 @@ def run (tab : List PortT) (rt : Option Obj) (buf : Bytes) (o : Opts) (opt : Lis
     let after := match cstrAt b 0 with
       | .ok s => toHex s
       | .error _ => "oob"
-    let (txt, n) := showCalls tab prefLen opt cs
+    let (txt, n) := showCalls tab prefLen both opt cs
     s!"W {n} {txt} B={after}"
 
 def step (line : String) : String :=
   match words line with
   | "W" :: t :: b :: f :: rest =>
     match parseTree t, ofHex b, f.toList with
-    | some tab, some buf, [e, r] => run tab none buf { expand := e == '1', ranges := r == '1' } (optPairs rest)
+    | some tab, some buf, [e, r] => run tab none buf { expand := e == '1', ranges := r == '1' } true (optPairs rest)
     | _, _, _ => "bad-op"
   | "D" :: t :: o :: b :: rest =>
     match parseTree t, parseObjStr o, ofHex b with
-    | some tab, some obj, some buf => run tab (some obj) buf {} (optPairs rest)
+    | some tab, some obj, some buf => run tab (some obj) buf {} true (optPairs rest)
     | _, _, _ => "bad-op"
   | "R" :: _ :: t :: o :: b :: rest =>
     match parseTree t, parseObjStr o, ofHex b with
-    | some tab, some obj, some buf => run tab (some obj) buf {} (optPairs rest)
+    | some tab, some obj, some buf => run tab (some obj) buf {} false (optPairs rest)
     | _, _, _ => "bad-op"
   | _ => "bad-op"
 
